@@ -423,6 +423,40 @@ async fn run_server(enabled: bool, names: &[String], acc: &mut Acc, thorough: bo
     Ok(())
 }
 
+/// validate_config on the whole small configuration space; start() on the authentication part.
+async fn config_cases(acc: &mut Acc) -> Result<Vec<String>, Box<dyn std::error::Error>> {
+    let mut terms = Vec::new();
+    let creds: [Option<&str>; 3] = [None, Some(""), Some("u")];
+    let mut id = 0u64;
+    for enable in [false, true] { for user in creds { for pw in creds {
+        for url_ok in [false, true] { for btc in ["", "http://127.0.0.1:1"] { for net in ["", "regtest"] { for fail_on in [false, true] {
+            let dir = tempfile::TempDir::new()?;
+            let addr = if url_ok { format!("127.0.0.1:{}", rpcx::free_port()) } else { String::new() };
+            let mut cfg = rpcx::config(dir.path().join("db").to_str().unwrap(), &addr, Some((user, pw)), net, false);
+            cfg.brc20_prog_rpc_server_enable_auth = enable;
+            cfg.bitcoin_rpc_url = btc.to_string();
+            cfg.fail_on_bitcoin_rpc_error = fail_on;
+            let v_ok = vh::validate_config(&cfg).is_ok();
+            // start() only where nothing but the credentials can matter
+            let start = if url_ok && !fail_on && net == "regtest" && btc.is_empty() {
+                match brc20_prog::start(cfg.clone()).await {
+                    Ok(h) => { h.stop()?; h.stopped().await; Some(true) }
+                    Err(_) => Some(false),
+                }
+            } else { None };
+            if enable && (user.is_none() || pw.is_none()) && (v_ok || start == Some(true)) {
+                acc.failures.push(json!({"what": "authentication enabled without user or password was accepted", "case": {"user": user, "password": pw, "validate_config_ok": v_ok, "start_ok": start}}));
+            }
+            let s = |x: &str| rpcx::coq_str(x);
+            terms.push(format!(
+                "{{| cc_id := {}; cc_cfg := {{| cfg_server_url := {}; cfg_enable_auth := {}; cfg_user := {}; cfg_password := {}; cfg_record_traces := false; cfg_bitcoin_url := {}; cfg_network := {}; cfg_fail_on_btc_error := {} |}}; cc_validate_ok := {}; cc_start := {} |}}",
+                id, s(&addr), cf::boolean(enable), cf::opt(&user, |u| s(u)), cf::opt(&pw, |u| s(u)), s(btc), s(net), cf::boolean(fail_on), cf::boolean(v_ok), cf::opt(&start, |b| cf::boolean(*b))));
+            id += 1;
+        }}}}
+    }}}
+    Ok(terms)
+}
+
 pub fn run(out: &Path, _seed: u64, thorough: bool) -> Result<(), Box<dyn std::error::Error>> {
     rpcx::install_span_recorder();
     let rt = tokio::runtime::Builder::new_multi_thread().worker_threads(4).enable_all().build()?;
@@ -440,6 +474,7 @@ pub fn run(out: &Path, _seed: u64, thorough: bool) -> Result<(), Box<dyn std::er
         run_server(false, &names, &mut acc, thorough).await?;
         Ok::<(), Box<dyn std::error::Error>>(())
     })?;
+    let cterms = rt.block_on(config_cases(&mut acc))?;
     // with correct credentials every method works
     for m in &names {
         if !acc.auth_result.get(m).copied().unwrap_or(false) {
@@ -454,10 +489,13 @@ pub fn run(out: &Path, _seed: u64, thorough: bool) -> Result<(), Box<dyn std::er
     }
     let imports = "From Brc.Model Require Import Base Config Auth Tie12.\nFrom BrcGen Require Import Consts Methods.";
     let files = cf::write_shards(out, "c12_o", imports, "ocase", "bad_ocases method_table INDEXER_METHODS", &acc.terms, 16)?;
+    let mut files = files;
+    files.extend(cf::write_shards(out, "c12_c", "From Brc.Model Require Import Base Config Auth Tie12.", "ccase", "bad_ccases", &cterms, 1)?);
     std::fs::write(out.join("c12_cases.jsonl"), acc.jsonl.join("\n") + "\n")?;
     let meta = json!({
         "files": files,
-        "evaluations": acc.terms.len(),
+        "evaluations": acc.terms.len() + cterms.len(),
+        "config_cases": cterms.len(),
         "distinct_nontrivial": acc.distinct.len(),
         "rule": "exhaustive: every registered method x {call, notification, batch [M,P,P] [P,M,P] [P,P,M] with M a call, same with M a notification} x {no header, wrong user, wrong password, malformed, correct} x {auth enabled, disabled} through the real HTTP server; brc20_initialise additionally on the uninitialised database; header corner cases (scheme case, spacing, non-UTF8, duplicates, other header) and request corner cases (escaped / unknown / case-changed method names, empty batch, notification-only batches, id 0 collision, invalid entries). A case is non-trivial when it is a well-formed HTTP request that reaches the JSON-RPC layer (all are); distinct = distinct (auth mode, body, header lines).",
         "samples": acc.samples,
